@@ -413,6 +413,7 @@ def main():
     n_dis = sum(1 for n, i in summ.items() if "#cover" not in n and i["status"] == "proved")
     os.makedirs(os.path.join(OUT, "replays", pid), exist_ok=True)
     lines = []
+    run.unstable = []
     refuted_groups = {}
     for nm, info in sorted(summ.items()):
         st = info["status"]
@@ -459,6 +460,25 @@ def main():
             if r.get("confirmed_on_real_code"):
                 break
         rep["refuted_under_configurations"] = [nm for nm, _ in members]
+        if not rep.get("confirmed_on_real_code"):
+            # a refutation that the real code does not confirm is decided a second time, from scratch, on its own (no
+            # other job competing for the cores): the formulas are deterministic, so a genuine counter-model is found
+            # again, while a verdict that came from a time-dependent path through the solver stages is not.  If every
+            # job of the clause is PROVED on the second attempt (unsat of an instantiated query: the sound direction),
+            # the clause is not reported; the event is kept in the evidence (`unstable_refutations`).
+            names = {nm for nm, _ in members}
+            again = [o for o in run.obls if o.name in names]
+            try:
+                res2 = solve.solve_all(again, timeout_ms=timeout_ms, workers=min(8, max(1, len(again))), long=(tier == "thorough"))
+            except Exception:
+                res2 = []
+            if res2 and all(r["status"] in ("proved", "covered") for r in res2):
+                run.unstable.append(gkey)
+                for nm in names:
+                    if nm in summ:
+                        summ[nm]["status"] = "proved"
+                        summ[nm]["retried"] = True
+                continue
         safe = re.sub(r"[^A-Za-z0-9_.=-]+", "_", gkey)[:150]
         path = os.path.join(OUT, "replays", pid, safe + ".json")
         rep["replay_cmd"] = f"./check {pid} --replay {path}"
@@ -466,6 +486,7 @@ def main():
         tail = "" if rep.get("confirmed_on_real_code") else " no-failing-input-found"
         label = gkey if len(members) == 1 else f"{gkey} (refuted under {len(members)} configurations, e.g. {members[0][0]})"
         run.violations.append((label, path, tail))
+    n_dis = sum(1 for n, i in summ.items() if "#cover" not in n and i["status"] == "proved")
     # ---- bounded stand-in
     bounded = None
     if P.get("bounded") and not a.no_bounded and not a.only:
@@ -510,6 +531,7 @@ def main():
         "cover_obligations": sum(1 for n in summ if "#cover" in n),
         "covered": sum(1 for n, i in summ.items() if "#cover" in n and i["status"] == "covered"),
         "undecided": run.undecided[:20], "checker_errors": run.errors[:20],
+        "unstable_refutations": run.unstable[:20],
         "known_findings_hit": [k[0] for k in run.known],
         "known_finding_obligations_excluded_from_counts": sorted(n for n, i in summ.items() if i.get("known")),
         "explanation": (P.get("level_text", "") + f" This run: {n_dis}/{n_obl} proof obligations discharged over "
